@@ -227,3 +227,228 @@ Example C13_update_example :
   match update ex_repr 1 [1; 0; 5] with Some r1 => repr_same_u r1 ex_repr_upd | None => false end = true /\
   update ex_repr 1 [2; 1; 0] = None.
 Proof. vm_compute. repeat split. Qed.
+
+(* ---- (d) the factorization itself as a verified operation (Fac/LUFactor.v, Fac/LUFactorSound.v) ------------------------
+   [lu_factor n B piv] is ILLfactor with the pivot order prescribed: Gaussian elimination with the pivots (row, column) of
+   [piv] in this order, producing the representation exactly as the C code lays it out (L etas in column form with the
+   multipliers a_ic / a_rc, L by rows, U by rows and columns with the pivot first, rperm / cperm = the pivot order, no row
+   etas).  The correctness does not depend on how the pivots are found.
+   Tie (checks/C13.py, every run): after every mpq_ILLfactor the dumped factor_work gives the pivot order (rperm, cperm in
+   rank order); the extracted lu_factor runs on the input matrix with that order and its result must equal the dump (U lines
+   as pivot + set of entries, L etas as sets, L by rows, permutations: [repr_same_lu]) and solve like the library. *)
+From QSX Require Import Fac.LUFactorSound.
+
+(* (a) for ANY pivot order the model accepts, the result represents B (every ftran / btran through it is exact) and
+   satisfies the structural invariant the update theorems start from *)
+Theorem C13_lu_factor_represents :
+  forall n B piv r, lu_factor n B piv = Some r ->
+    struct_ok r = true /\ represents r B /\ f_dim r = n /\ f_er r = [] /\ f_rperm r = map fst piv /\ f_cperm r = map snd piv.
+Proof. exact lu_factor_represents. Qed.
+Print Assumptions C13_lu_factor_represents.
+
+Theorem C13_lu_factor_solves :
+  forall n B piv r, lu_factor n B piv = Some r ->
+    forall a, is_solution n B (ftran_dense r a) a /\ is_left_solution n B (btran r a) a.
+Proof. exact lu_factor_solves. Qed.
+Print Assumptions C13_lu_factor_solves.
+
+(* the whole chain factor -> column replacements -> solves *)
+Theorem C13_lu_factor_history_solves :
+  forall n B piv r h r1, lu_factor n B piv = Some r -> update_hist r h = Some r1 ->
+    (forall ka, In ka h -> (fst ka < n)%nat) ->
+    forall a, is_solution n (replace_hist n B h) (ftran_dense r1 a) a /\ is_left_solution n (replace_hist n B h) (btran r1 a) a.
+Proof. exact lu_factor_history_solves. Qed.
+Print Assumptions C13_lu_factor_history_solves.
+
+(* (c) the elimination invariant after the pivots piv = (r_0,c_0) .. (r_k-1,c_k-1):  L_k ... L_1 B = A_k  (column by
+   column), column c_t of A_k vanishes outside the rows r_0 .. r_t  (A_k = [U_k | * ; 0 | kernel_k] in pivot order), the
+   pivots are not zero, rows and columns are used once *)
+Theorem C13_lu_elim_invariant :
+  forall n B piv st, lu_steps n (lu_init n B) piv = Some st ->
+    let k := length piv in
+    lu_piv st = piv /\
+    (forall i j, (i < n)%nat -> (j < n)%nat ->
+       qnth (fold_left (axpy_step n) (lu_lc st) (bcol n B j)) i == mget (lu_A st) i j) /\
+    (forall t i, (t < k)%nat -> (i < n)%nat -> (forall s, (s <= t)%nat -> i <> fst (nth s piv (0, 0)%nat)) ->
+       mget (lu_A st) i (snd (nth t piv (0, 0)%nat)) == 0) /\
+    (forall t, (t < k)%nat -> ~ mget (lu_A st) (fst (nth t piv (0, 0)%nat)) (snd (nth t piv (0, 0)%nat)) == 0) /\
+    NoDup (map fst piv) /\ NoDup (map snd piv) /\ length (lu_lc st) = k.
+Proof. exact lu_elim_invariant. Qed.
+Print Assumptions C13_lu_elim_invariant.
+
+(* (b) singular <-> stuck.  A step is admissible iff row and column are in range, unused, and the entry is not zero *)
+Theorem C13_lu_step_some_iff :
+  forall n st rc, (exists st', lu_step n st rc = Some st') <->
+    (fst rc < n)%nat /\ (snd rc < n)%nat /\ ~ In (fst rc) (lu_rows st) /\ ~ In (snd rc) (lu_cols st) /\
+    ~ mget (lu_A st) (fst rc) (snd rc) == 0.
+Proof. exact lu_step_some_iff. Qed.
+Print Assumptions C13_lu_step_some_iff.
+
+(* a non-singular matrix never gets stuck, whatever admissible pivots were taken before *)
+Theorem C13_lu_never_stuck :
+  forall n B piv st, nonsingular n B -> lu_steps n (lu_init n B) piv = Some st -> (length piv < n)%nat ->
+    exists rc st', lu_step n st rc = Some st'.
+Proof. exact lu_never_stuck. Qed.
+Print Assumptions C13_lu_never_stuck.
+
+(* ... hence has a complete admissible pivot sequence; some sequence succeeds iff B is non-singular *)
+Theorem C13_lu_factor_complete :
+  forall n B, nonsingular n B -> exists r, lu_factor n B (lu_auto_pivots n B) = Some r.
+Proof. exact lu_factor_complete. Qed.
+Print Assumptions C13_lu_factor_complete.
+
+Theorem C13_lu_factor_some_iff :
+  forall n B, (exists piv r, lu_factor n B piv = Some r) <-> nonsingular n B.
+Proof. exact lu_factor_some_iff. Qed.
+Print Assumptions C13_lu_factor_some_iff.
+
+(* for a singular B every pivot sequence fails; continued as long as a non-zero pivot is left it stops before the matrix is
+   exhausted in a state whose kernel is entirely zero (the state in which find_pivot / dense_find_pivot return E_NO_PIVOT
+   and handle_singularity reports the rows and columns left) *)
+Theorem C13_lu_singular_fails :
+  forall n B piv, ~ nonsingular n B -> lu_factor n B piv = None.
+Proof. exact lu_singular_fails. Qed.
+Print Assumptions C13_lu_singular_fails.
+
+Theorem C13_lu_singular_gets_stuck :
+  forall n B piv st, ~ nonsingular n B -> lu_steps n (lu_init n B) piv = Some st ->
+    exists piv' st', lu_steps n (lu_init n B) (piv ++ piv') = Some st' /\ (length (piv ++ piv') < n)%nat /\
+                     forall r c, (r < n)%nat -> (c < n)%nat -> lu_ok n st' r c = false.
+Proof. exact lu_singular_gets_stuck. Qed.
+Print Assumptions C13_lu_singular_gets_stuck.
+
+(* conversely a stuck state, a zero row or a zero column of the kernel at any stage prove B singular *)
+Theorem C13_lu_stuck_singular :
+  forall n B piv st, lu_steps n (lu_init n B) piv = Some st -> (length piv < n)%nat ->
+    (forall r c, (r < n)%nat -> (c < n)%nat -> lu_ok n st r c = false) -> ~ nonsingular n B.
+Proof. exact lu_stuck_singular. Qed.
+Print Assumptions C13_lu_stuck_singular.
+
+Theorem C13_lu_zero_row_singular :
+  forall n B piv st i, lu_steps n (lu_init n B) piv = Some st -> (i < n)%nat -> ~ In i (map fst piv) ->
+    (forall j, (j < n)%nat -> ~ In j (map snd piv) -> mget (lu_A st) i j == 0) -> ~ nonsingular n B.
+Proof. exact lu_zero_row_singular. Qed.
+Print Assumptions C13_lu_zero_row_singular.
+
+Theorem C13_lu_zero_col_singular :
+  forall n B piv st c, lu_steps n (lu_init n B) piv = Some st -> (c < n)%nat -> ~ In c (map snd piv) ->
+    (forall i, (i < n)%nat -> ~ In i (map fst piv) -> mget (lu_A st) i c == 0) -> ~ nonsingular n B.
+Proof. exact lu_zero_col_singular. Qed.
+Print Assumptions C13_lu_zero_col_singular.
+
+(* the report (nsing, singr, singc) of a singular factorization, judged layout-independently: sing = [(singc_i, singr_i)];
+   a matrix X accepted by [check_sing_report] certifies that the repaired matrix (columns singc_i := unit columns of the rows
+   singr_i, what ILLbasis_factor does) is non-singular - not too few columns are named - and that the rows singc_i of X are
+   left null vectors of B forming an identity block on the positions singr_i: |sing| independent null vectors - not too
+   many are named *)
+Theorem C13_sing_report_sound :
+  forall n B sing X, check_sing_report n B sing X = true -> NoDup (map fst sing) ->
+    nonsingular n (repair_cols n B sing) /\
+    (forall c r, In (c, r) sing ->
+       (forall j, (j < n)%nat -> sumn n (fun i => mget X c i * mget B i j) == 0) /\
+       (forall c' r', In (c', r') sing -> mget X c r' == if Nat.eqb c c' then 1 else 0)) /\
+    (sing <> [] -> ~ nonsingular n B).
+Proof. exact sing_report_sound. Qed.
+Print Assumptions C13_sing_report_sound.
+
+(* the two passes over L that the proof of (a) rests on, for any eta file that is unit triangular in the pivot order:
+   ILLfactor_ftranl computes x' with (I + M) x' = x, ILLfactor_btranl2 computes y' with y' (I + M) = y *)
+Theorem C13_ftranl_spec :
+  forall n M lc x, tri M (map fst lc) -> NoDup (map fst lc) -> colform n M lc -> forall i, (i < n)%nat ->
+    qnth (fold_left (axpy_step n) lc x) i +
+    sumn n (fun b => ind (map fst lc) b * (M i b * qnth (fold_left (axpy_step n) lc x) b)) == qnth x i.
+Proof. exact ftranl_spec. Qed.
+Print Assumptions C13_ftranl_spec.
+
+Theorem C13_btranl_spec :
+  forall n M lr y, tri M (map fst lr) -> NoDup (map fst lr) -> rowform n M lr -> forall i, (i < n)%nat ->
+    qnth (fold_left (axpy_step n) (rev lr) y) i +
+    sumn n (fun a => ind (map fst lr) a * (qnth (fold_left (axpy_step n) (rev lr) y) a * M a i)) == qnth y i.
+Proof. exact btranl_spec. Qed.
+Print Assumptions C13_btranl_spec.
+
+(* the hypotheses are satisfiable, the model computes: a 3x3 matrix factored with a row-permuted pivot order passes
+   check_repr and struct_ok; the search finds the diagonal; a singular matrix gets stuck after two pivots with the kernel
+   [[0]] and is refused *)
+Example C13_lu_factor_example :
+  let B := [[2; 1; 0]; [1; 3; 1]; [0; 1; 4]] in
+  let S := [[1; 2; 3]; [2; 4; 6]; [0; 1; 1]] in
+  match lu_factor 3 B [(1, 0); (0, 1); (2, 2)]%nat with Some r => check_repr r B && struct_ok r | None => false end = true /\
+  lu_auto_pivots 3 B = [(0, 0); (1, 1); (2, 2)]%nat /\
+  lu_factor 3 S [(0, 0); (2, 1); (1, 2)]%nat = None /\
+  lu_kernel 3 S [(0, 0); (2, 1)]%nat = Some ([1%nat], [2%nat], [[0]]).
+Proof. vm_compute. repeat split. Qed.
+
+(* the model agrees with the library on a recorded instance: with the pivot order of the dumped permutations the verified
+   elimination reproduces the dumped factor_work (normal form), which passes check_repr *)
+Example C13_lu_factor_recorded :
+  match lu_factor 3 ex_lu_B (combine (f_rperm ex_lu_dump) (f_cperm ex_lu_dump)) with
+  | Some r => repr_same_lu r ex_lu_dump && check_repr ex_lu_dump ex_lu_B
+  | None => false
+  end = true.
+Proof. vm_compute. reflexivity. Qed.
+
+(* ---- (e) the sparse solve variants (ILLfactor_ftranl3, _btranl3, _ftranu3, _btranu3) -----------------------------------
+   They handle only the nodes reachable from the non-zeros of the right-hand side, depth first, a node when all its reachable
+   predecessors are done.  Fac/TopoOrder.v: any evaluation order that respects the dependency order of the triangular factor
+   ([tri] for the eta passes, [triP] for the U passes) and whose skipped nodes are inert (zero input, not written to by a
+   handled node) gives the vector of the dense loop, so the sparse variants are covered by check_repr_sound /
+   lu_factor_represents / update_preserves modulo "the C code visits such an order".  Run-time check of that premise where it
+   is observable: the order in which mpq_ILLfactor_ftran lists its result is the order in which ftranu / ftranu3 handled the
+   columns with a non-zero value; checks/C13.py runs the extracted [listed_order_ok] on it against the dumped U. *)
+From QSX Require Import Fac.TopoOrder.
+
+Theorem C13_ftranl_order_irrelevant :
+  forall n M lc1 lc2 x,
+    tri M (map fst lc1) -> NoDup (map fst lc1) -> colform n M lc1 ->
+    tri M (map fst lc2) -> NoDup (map fst lc2) -> colform n M lc2 ->
+    incl (map fst lc2) (map fst lc1) ->
+    (forall b, In b (map fst lc1) -> ~ In b (map fst lc2) ->
+       qnth x b == 0 /\ forall b', In b' (map fst lc2) -> M b b' == 0) ->
+    forall i, (i < n)%nat -> qnth (fold_left (axpy_step n) lc2 x) i == qnth (fold_left (axpy_step n) lc1 x) i.
+Proof. exact ftranl_order_irrelevant. Qed.
+Print Assumptions C13_ftranl_order_irrelevant.
+
+Theorem C13_btranl_order_irrelevant :
+  forall n M lr1 lr2 y,
+    tri M (map fst lr1) -> NoDup (map fst lr1) -> rowform n M lr1 ->
+    tri M (map fst lr2) -> NoDup (map fst lr2) -> rowform n M lr2 ->
+    incl (map fst lr2) (map fst lr1) ->
+    (forall a, In a (map fst lr1) -> ~ In a (map fst lr2) ->
+       qnth y a == 0 /\ forall a', In a' (map fst lr2) -> M a' a == 0) ->
+    forall i, (i < n)%nat -> qnth (fold_left (axpy_step n) (rev lr2) y) i == qnth (fold_left (axpy_step n) (rev lr1) y) i.
+Proof. exact btranl_order_irrelevant. Qed.
+Print Assumptions C13_btranl_order_irrelevant.
+
+Theorem C13_ftranu_order_irrelevant :
+  forall r pjs v, struct_ok r = true -> triP (f_uc r) [] pjs ->
+    (forall pj, In pj pjs -> (fst pj < f_dim r)%nat /\ (snd pj < f_dim r)%nat) ->
+    (forall i, (i < f_dim r)%nat -> ~ In i (map fst pjs) -> qnth v i == 0 /\ forall pj, In pj pjs -> Ucf r i (snd pj) == 0) ->
+    forall j, (j < f_dim r)%nat ->
+      qnth (dense (f_dim r) (snd (fold_left (u_step (f_dim r) (f_uc r)) pjs (v, [])))) j == qnth (usolve r v) j.
+Proof. exact ftranu_order_irrelevant. Qed.
+Print Assumptions C13_ftranu_order_irrelevant.
+
+Theorem C13_btranu_order_irrelevant :
+  forall r pjs c, struct_ok r = true -> triP (f_ur r) [] pjs ->
+    (forall pj, In pj pjs -> (fst pj < f_dim r)%nat /\ (snd pj < f_dim r)%nat) ->
+    (forall j, (j < f_dim r)%nat -> ~ In j (map fst pjs) -> qnth c j == 0 /\ forall pj, In pj pjs -> Urf r (snd pj) j == 0) ->
+    forall i, (i < f_dim r)%nat ->
+      qnth (dense (f_dim r) (snd (fold_left (u_step (f_dim r) (f_ur r)) pjs (c, [])))) i == qnth (usolve_t r c) i.
+Proof. exact btranu_order_irrelevant. Qed.
+Print Assumptions C13_btranu_order_irrelevant.
+
+(* the executable premise check decides [triP] for the listed order *)
+Theorem C13_listed_order_ok_spec :
+  forall cols order, listed_order_ok cols order = true <-> triP cols [] (listed_pjs cols order).
+Proof. exact listed_order_ok_spec. Qed.
+Print Assumptions C13_listed_order_ok_spec.
+
+(* satisfiable: on the recorded factor the right-hand side e_2 reaches column 2 only; handling just that column gives the
+   result of the full loop; the rank order (columns 0, 1, 2 by decreasing rank) passes the check, its reverse does not *)
+Example C13_topo_example :
+  listed_order_ok (f_uc ex_lu_dump) [2%nat] = true /\
+  veqb 3 (dense 3 (snd (fold_left (u_step 3 (f_uc ex_lu_dump)) [(2, 2)%nat] ([0; 0; 1], [])))) (usolve ex_lu_dump [0; 0; 1]) = true /\
+  listed_order_ok (f_uc ex_lu_dump) [0; 1; 2]%nat = true /\
+  listed_order_ok (f_uc ex_lu_dump) [2; 1; 0]%nat = false.
+Proof. vm_compute. repeat split. Qed.
